@@ -68,7 +68,7 @@ func vfMakeEnv(src string, maxLen int) *vfEnv {
 	e.A, e.B = vfInt("A"), vfInt("B")
 	if uses("..") {
 		// bound on run-time ranges: the loop in makeRange is unrolled, so range bounds stay small
-		vfAssume(e.A >= -2 && e.A <= 4 && e.B >= -2 && e.B <= 4)
+		vfAssume(e.A >= -1 && e.A <= 3 && e.B >= -1 && e.B <= 3)
 	}
 	if uses("I64") {
 		e.I64 = vfInt64("I64")
@@ -408,6 +408,12 @@ func vfSeq(v interface{}) ([]interface{}, bool) {
 		return out, true
 	case []interface{}:
 		return x, true
+	case []string:
+		out := make([]interface{}, len(x))
+		for i, e := range x {
+			out[i] = e
+		}
+		return out, true
 	}
 	return nil, false
 }
